@@ -8,7 +8,7 @@ META = {
     "technique": "Coq proof over R of admissibility of the force law (Model/ConstraintUpdate.v, shared with C12) and of the pyramid "
                  "decode / contact-force slice laws + float correspondence runs against mj_constraintUpdate_impl, mj_contactForce, "
                  "mju_encodePyramid/mju_decodePyramid + admissibility oracle on efc_force after mj_forward for every solver and cone",
-    "text": "PROVED over R for the model Model/ConstraintUpdate.v of the force law mj_constraintUpdate_impl (shared with C12), for every row composition, contact dimension and residual vector meeting cu_wf with positive efc_D and non-zero friction coefficients: C11_admissible — friction-loss rows |f| <= frictionloss; limit, frictionless and pyramidal rows f >= 0; elliptic contacts f0 >= 0 and sum_j (f_j/friction_j)^2 <= f0^2 in every zone (equality in the middle zone); the three row kinds also separately (C11_friction_bound, C11_unilateral, C11_elliptic). C11_decode_cone: mju_decodePyramid of non-negative edge forces lies in the friction pyramid; C11_decode_encode: decode(encode(f)) = f exactly on the forces with f[i+1]/mu[i] <= f[0]/(dim-1) (encodePyramid clips from above only, so it is NOT an inverse outside that set — observed on about a quarter of the engine's pyramidal contacts; no property clause depends on it); C11_contact_force: mj_contactForce for elliptic cones is the zero-padded efc_force slice at efc_address with the contact's adhesion subtracted from the normal. TIED: float runs of the model against mj_constraintUpdate_impl (engine states), mj_contactForce, mju_decodePyramid, mju_encodePyramid; and the observation that after CG/Newton efc_force equals the force law at jar = J*qacc - aref (1e-6). ORACLE on implementation output after mj_forward on mjgen models for PGS, CG, Newton x pyramidal, elliptic (with noslip, islands on/off, adhesion on some seeds): all inequalities with 1e-9 slack, qfrc_constraint = J' efc_force (mj_mulJacTVec, 1e-9), mj_contactForce consistent with efc_force. NOT PROVED: that the PGS / noslip iterates are admissible (projectCone is C10's subject) and that solvers terminate with the force-law output — both are observed by the oracle/tie only; qfrc_constraint = J' f is oracle only; floating-point rounding.",
+    "text": "PROVED over R for the model Model/ConstraintUpdate.v of the force law mj_constraintUpdate_impl (shared with C12), for every row composition, contact dimension and residual vector meeting cu_wf with positive efc_D and non-zero friction coefficients: C11_admissible — friction-loss rows |f| <= frictionloss; limit, frictionless and pyramidal rows f >= 0; elliptic contacts f0 >= 0 and sum_j (f_j/friction_j)^2 <= f0^2 in every zone (equality in the middle zone); the three row kinds also separately (C11_friction_bound, C11_unilateral, C11_elliptic). C11_decode_cone: mju_decodePyramid of non-negative edge forces lies in the friction pyramid; C11_decode_encode: decode(encode(f)) = f exactly on the forces with f[i+1]/mu[i] <= f[0]/(dim-1) (encodePyramid clips from above only, so it is NOT an inverse outside that set — observed on about a quarter of the engine's pyramidal contacts; no property clause depends on it); C11_contact_force: mj_contactForce for elliptic cones is the zero-padded efc_force slice at efc_address with the contact's adhesion subtracted from the normal. C11_noslip_friction / C11_noslip_pyramid: the dry-friction row update of solNoSlip/solPGS (force and bound of the same efc row) stays within [-frictionloss, frictionloss] and equals mju_clip; the noslip update of a pair of opposing pyramid edges keeps both edges >= 0 and their sum. TIED: a fail-closed reader of those projections in engine_solver.c (accepted spellings only, same-row index), mju_clip bit-exact against the model, float runs of the model against mj_constraintUpdate_impl (engine states), mj_contactForce, mju_decodePyramid, mju_encodePyramid; and the observation that after CG/Newton efc_force equals the force law at jar = J*qacc - aref (1e-6). ORACLE on implementation output after mj_forward for PGS, CG, Newton x pyramidal, elliptic on two model families: mjgen models (noslip, islands on/off, adhesion, saturating loads on some seeds) and an island family (2-5 disconnected jointed trees plus resting free bodies, each its own island, frictionloss / friction / condim differing per island in ascending, descending, random and one-large patterns, saturating loads, noslip 0/3/5/20/50, per-island and monolithic solves) so that island-local row positions differ from efc indices: all inequalities with 1e-9 slack, qfrc_constraint = J' efc_force (mj_mulJacTVec, 1e-9), mj_contactForce consistent with efc_force. NOT PROVED: that the PGS / noslip iterates are admissible (projectCone is C10's subject) and that solvers terminate with the force-law output — both are observed by the oracle/tie only; qfrc_constraint = J' f is oracle only; floating-point rounding.",
     "note": "Trusted: Coq kernel + std-lib real-number axioms; hand-written model Model/ConstraintUpdate.v; correspondence harness "
             "(gcc, drivers c11_forces.c / c12_update.c, Coq PrimFloat evaluation). IEEE rounding is outside every theorem.",
     "assumptions": ["theorems are over the real numbers; float runs of the same definitions are compared with a scaled tolerance",
@@ -24,8 +24,8 @@ def parse_records(out):
         t = line.split()
         if not t or t[0] != "F":
             continue
-        seed, cone, solver, noslip, island, adhes, step, nv, ne, nf, nefc, ncon, niter = [int(x) for x in t[1:14]]
-        p = 14
+        seed, cone, solver, noslip, island, adhes, step, nv, ne, nf, nefc, ncon, niter, nisland = [int(x) for x in t[1:15]]
+        p = 15
         def nums(n):
             nonlocal p
             v = [float.fromhex(x) for x in t[p:p + n]]; p += n
@@ -43,10 +43,11 @@ def parse_records(out):
             dim = ints(1)[0]; mu = nums(1)[0]; fr = nums(5); adr = ints(1)[0]; adh = nums(1)[0]; cf = nums(6); rt = nums(6)
             con.append({"dim": dim, "mu": mu, "fr": fr, "adr": adr, "adhesion": adh, "cf": cf, "rt": rt})
         cfg = CU.finish_cfg({"ne": ne, "nf": nf, "D": D, "R": R, "fl": floss, "type": tp, "id": idd, "con": con, "jar": jar, "related": True,
-                             "src": "mjgen(c11) seed=%d cone=%s solver=%s noslip=%d island=%d adhesion=%d step=%d" % (
-                                 seed, "elliptic" if cone else "pyramidal", SOLVER.get(solver, solver), noslip, island, adhes, step)})
+                             "src": "%s seed=%d cone=%s solver=%s noslip=%d island=%d nisland=%d adhesion=%d step=%d" % (
+                                 "islands(c11)" if seed >= 1000000 else "mjgen(c11)", seed % 1000000,
+                                 "elliptic" if cone else "pyramidal", SOLVER.get(solver, solver), noslip, island, nisland, adhes, step)})
         recs.append({"cfg": cfg, "seed": seed, "cone": cone, "solver": solver, "noslip": noslip, "island": island, "adhes": adhes, "step": step,
-                     "force": force, "state": state, "qfrc": qfrc, "jtf": jtf, "niter": niter})
+                     "force": force, "state": state, "qfrc": qfrc, "jtf": jtf, "niter": niter, "nisland": nisland})
     return recs
 
 
@@ -57,6 +58,84 @@ def decode_py(pyr, mu, dim):
     for i in range(2 * (dim - 1)):
         f0 += pyr[i]
     return [f0] + [(pyr[2 * i] - pyr[2 * i + 1]) * mu[i] for i in range(dim - 1)]
+
+
+def _norm(txt):
+    import re
+    txt = re.sub(r"//[^\n]*", "", txt)
+    return re.sub(r"\s+", "", txt)
+
+
+# accepted spellings (whitespace/comment-insensitive) of the per-row projections modelled by noslip_fric_update /
+# noslip_pyr_pair / mju_clip in Model/ConstraintUpdate.v: force and bound must be those of the same efc row i
+FRIC_FORMS = {
+    "if(force[i]<-floss[i]){force[i]=-floss[i];}elseif(force[i]>floss[i]){force[i]=floss[i];}",
+    "force[i]=mju_clip(force[i],-floss[i],floss[i]);",
+    "force[i]=mju_max(-floss[i],mju_min(floss[i],force[i]));",
+}
+PYR_FORMS = {
+    "if(y<-mid){force[j]=0;force[j+1]=2*mid;}elseif(y>mid){force[j]=2*mid;force[j+1]=0;}else{force[j]=mid+y;force[j+1]=mid-y;}",
+}
+
+
+def source_tie(ctx):
+    """fail-closed reader of the dry-friction and pyramid-pair projections of solNoSlip / solPGS in
+    src/engine/engine_solver.c (the code next to the force law that noslip_fric_update / noslip_pyr_pair model)."""
+    import os, re
+    path = os.path.join(ctx.repo, "src/engine/engine_solver.c")
+    try:
+        src = open(path).read()
+    except OSError as e:
+        ctx.broken.append(("translator", "cannot read src/engine/engine_solver.c", str(e)))
+        return 0
+    def line_of(pos):
+        return src.count("\n", 0, pos) + 1
+    def section(start_marker, end_marker, frm=0):
+        a = src.find(start_marker, frm)
+        if a < 0:
+            return None, -1, -1
+        b = src.find(end_marker, a)
+        if b < 0:
+            return None, a, -1
+        return src[a + len(start_marker):b], a, b
+    n = 0
+    a0 = src.find("static void solNoSlip(")
+    p0 = src.find("static void solPGS(")
+    if a0 < 0 or p0 < 0:
+        ctx.broken.append(("translator", "cannot read src/engine/engine_solver.c: solNoSlip / solPGS not found", ""))
+        return 0
+    checks = [
+        ("solNoSlip dry-friction row", "// impose interval constraints", "// add to improvement", a0, FRIC_FORMS),
+        ("solNoSlip pyramid pair", "// clamp and assign", "// accumulate improvement", a0, None),
+        ("solPGS momentum projection of friction-loss rows", "// friction loss: project onto bounds", "// contact force: project onto friction cone", p0, None),
+    ]
+    for what, m0, m1, frm, forms in checks:
+        body, a, b = section(m0, m1, frm)
+        if body is None:
+            ctx.broken.append(("translator", "cannot read src/engine/engine_solver.c: %s: markers not found" % what, ""))
+            continue
+        nb = _norm(body)
+        if what.endswith("pyramid pair"):
+            ok = any(nb.rstrip("}") == f.rstrip("}") for f in PYR_FORMS)
+        elif what.startswith("solPGS momentum"):
+            m = re.fullmatch(r"for\(intc=ne;c<ne\+nf;c\+\+\)\{inti=efclist\?efclist\[c\]:c;(.*)\}", nb)
+            ok = bool(m) and m.group(1) in FRIC_FORMS
+        else:
+            ok = nb in forms
+        n += 1
+        if not ok:
+            ctx.broken.append(("translator", "cannot read src/engine/engine_solver.c:%d %s is not one of the modelled forms "
+                               "(force and bound of the same efc row)" % (line_of(a), what), body.strip()[:300]))
+    # PGS sweep: simple rows
+    body, a, b = section("// impose interval and inequality constraints", "// elliptic cone constraint", p0)
+    n += 1
+    want = "if(c>=ne&&c<ne+nf){if(force[i]<-floss[i]){force[i]=-floss[i];}elseif(force[i]>floss[i]){force[i]=floss[i];}}elseif(c>=ne+nf){if(force[i]<0){force[i]=0;}}}"
+    alt = "if(c>=ne&&c<ne+nf){force[i]=mju_clip(force[i],-floss[i],floss[i]);}elseif(c>=ne+nf){if(force[i]<0){force[i]=0;}}}"
+    alt2 = "if(c>=ne&&c<ne+nf){force[i]=mju_clip(force[i],-floss[i],floss[i]);}elseif(c>=ne+nf){force[i]=mju_max(0,force[i]);}}"
+    if body is None or _norm(body) not in (want, alt, alt2):
+        ctx.broken.append(("translator", "cannot read src/engine/engine_solver.c:%d solPGS projection of simple rows is not one of the modelled forms" % (line_of(a) if a >= 0 else 0),
+                           (body or "").strip()[:300]))
+    return n
 
 
 def run(ctx):
@@ -70,15 +149,25 @@ def run(ctx):
         return
     tm["coq_props+build"] = round(time.time() - t0, 1); t0 = time.time()
     s0, s1 = 1, (73 if quick else 421)
+    i0, i1 = 1, (121 if quick else 601)
     rp = getattr(ctx, "replay", None)
     if rp and isinstance(rp.get("case"), dict) and isinstance(rp["case"].get("replay"), dict):
-        s0 = int(rp["case"]["replay"]["seed"]); s1 = s0 + 1      # --replay: only the recorded model
-    rc, out, err = ctx.run(exe, "", args=[str(s0), str(s1)])
-    if rc != 0:
-        ctx.broken.append(("correspondence", "driver c11_forces failed", "rc=%s %s" % (rc, err[-500:])))
-        return
+        sd = int(rp["case"]["replay"]["seed"])                    # --replay: only the recorded model
+        if sd >= 1000000:
+            s0, s1, i0, i1 = 0, 0, sd - 1000000, sd - 1000000 + 1
+        else:
+            s0, s1, i0, i1 = sd, sd + 1, 0, 0
+    out = ""
+    for args in ([str(s0), str(s1)], ["isl", str(i0), str(i1)]):
+        if args[-2] == args[-1]:
+            continue
+        rc, o1, err = ctx.run(exe, "", args=args)
+        if rc != 0:
+            ctx.broken.append(("correspondence", "driver c11_forces failed", "rc=%s %s" % (rc, err[-500:])))
+            return
+        out += o1 + "\n"
     recs = parse_records(out)
-    if len(recs) < 20 and s1 - s0 > 1:
+    if len(recs) < 20 and (s1 - s0) + (i1 - i0) > 1:
         ctx.broken.append(("correspondence", "driver c11_forces produced too few records", out[-300:]))
         return
     tm["mj_forward runs"] = round(time.time() - t0, 1); t0 = time.time()
@@ -222,15 +311,53 @@ Definition chk_cf (c : bool * list float * list float * Z * float * list float *
                       observed=meta[i]["contactForce"], found_input=False, theorem="correspondence mj_contactForce, mju_decodePyramid, mju_encodePyramid",
                       signature={"site": "mj_contactForce"})
     tm["correspondence"] = round(time.time() - t0, 1)
+    # (d) the per-row projections of the dual solvers: source text + mju_clip against the model
+    ntie = source_tie(ctx)
+    trip = []
+    for _ in range(400):
+        x = ctx.rng.gauss(0, 3); lo = ctx.rng.gauss(0, 2); hi = lo + abs(ctx.rng.gauss(0, 2)) * ctx.rng.choice([1, 1, 1, 0, -0.5])
+        trip.append((x, lo, hi))
+    trip += [(0.0, -0.0, 0.0), (1.0, -1.0, 1.0), (-1.0, -1.0, 1.0), (float("inf"), -2.0, 2.0), (float("-inf"), -2.0, 2.0)]
+    rc, o2, err = ctx.run(exe, "".join("%s %s %s\n" % (CU.hx(a), CU.hx(b), CU.hx(c)) for a, b, c in trip), args=["clip"])
+    cl = o2.split()
+    if rc != 0 or len(cl) != len(trip):
+        ctx.broken.append(("correspondence", "driver c11_forces clip failed", "rc=%s %s" % (rc, err[-300:])))
+    else:
+        clits = ["(%s, %s, %s, %s)" % (CU.fl(a), CU.fl(b), CU.fl(c), CU.fl(float.fromhex(r))) for (a, b, c), r in zip(trip, cl)]
+        clfails = ctx.coq_eval("c11clip", CU.COQ_IMPORTS, clits, "(fun c : float*float*float*float => match c with (x, lo, hi, r) => fbits_eq r (mju_clip (T:=float) x lo hi) end)")
+        for i in clfails[:2]:
+            ctx.violation("correspondence", {"x": CU.hx(trip[i][0]), "lo": CU.hx(trip[i][1]), "hi": CU.hx(trip[i][2])}, expected="mju_clip of Model/ConstraintUpdate.v",
+                          observed=cl[i], found_input=False, theorem="correspondence mju_clip (C11_noslip_friction)", signature={"site": "mju_clip"})
+    ctx.cov["support"]["dual_solver_projection_source_checks"] = ntie
+    ctx.cov["support"]["mju_clip_correspondence_cases"] = len(trip)
     # ---------------------------------------------------------------- coverage
+    strata = {"records with >= 2 islands": 0, "noslip and >= 2 islands": 0, "noslip, >= 2 islands and a saturated friction-loss row": 0,
+              "noslip, >= 2 islands, distinct frictionloss values": 0, "islands disabled": 0, "island family records": 0}
+    for r in recs:
+        cfg = r["cfg"]
+        fr_rows = [i for (k, i, dm, c) in cfg["blocks"] if k == "fric"]
+        sat = any(abs(r["force"][i]) >= 0.999 * cfg["fl"][i] for i in fr_rows)
+        multi = r["nisland"] >= 2
+        strata["records with >= 2 islands"] += multi
+        strata["noslip and >= 2 islands"] += bool(multi and r["noslip"])
+        strata["noslip, >= 2 islands and a saturated friction-loss row"] += bool(multi and r["noslip"] and sat)
+        strata["noslip, >= 2 islands, distinct frictionloss values"] += bool(multi and r["noslip"] and len(set(cfg["fl"][i] for i in fr_rows)) >= 2)
+        strata["islands disabled"] += (not r["island"])
+        strata["island family records"] += (r["seed"] >= 1000000)
+    ctx.cov["strata"] = strata
     combos = {}
     for r in recs:
         k = "%s/%s%s" % (SOLVER.get(r["solver"]), "elliptic" if r["cone"] else "pyramidal", "/noslip" if r["noslip"] else "")
         combos[k] = combos.get(k, 0) + 1
     ctx.cov["evaluations"] = len(recs) + len(sel) + len(lits)
     ctx.cov["distinct_nontrivial"] = sum(1 for r in recs if len(r["cfg"]["con"]) > 0 and any(x != 0 for x in r["force"]))
-    ctx.cov["rule"] = ("records = (mjgen model, state) after mj_forward at steps 0/9/30/60 for seeds of the run, solver = seed/2 mod 3 (PGS, CG, Newton), "
-                       "cone = seed mod 2, noslip for seed mod 7 = 0, islands disabled for seed mod 5 = 0, geom adhesion for seed mod 6 = 1; "
+    ctx.cov["rule"] = ("records = (model, state) after mj_forward. mjgen family: steps 0/9/30/60, solver = seed/2 mod 3 (PGS, CG, Newton), "
+                       "cone = seed mod 2, noslip 3 for seed mod 7 = 0 and 20 for seed mod 5 = 2, islands disabled for seed mod 5 = 0, geom adhesion for seed mod 6 = 1, "
+                       "saturating applied forces for seed mod 4 = 3. Island family (c11_forces isl): 2-5 disconnected jointed trees (multi-joint and jointless bodies, "
+                       "hinge/slide, limits, fixed tendons with friction loss) whose frictionloss values ascend / descend / are random / have one large among small across "
+                       "trees, 0-3 resting free bodies (sphere/box/capsule, condim 1/3/4/6, own friction, shallow or deep penetration), saturating loads, "
+                       "solver = seed mod 3, cone = seed/3 mod 2, noslip in {20,5,0,20,3,50}, islands disabled for seed mod 8 = 7; every tree / body is its own island, "
+                       "so island-local row positions differ from efc indices; "
                        "non-trivial = record with at least one contact and a non-zero constraint force")
     ctx.cov["solver_cone_records"] = combos
     ctx.cov["oracle_checks"] = stats.as_dict()
